@@ -151,8 +151,22 @@ func mutate(code string, mut int) string {
 			sb.WriteRune(rune(0xFF10 + int(c-'0')))
 		}
 		return sb.String()
+	case 9: // same byte length: the first two bytes are one two-byte character whose code point ends in the first digit
+		if len(b) >= 2 {
+			return string(rune(0x100+int(b[0]))) + code[2:]
+		}
 	}
 	return code
+}
+
+// straddle returns the tail of one code followed by the head of the next (k characters moved): a string of the right
+// length that occurs in the two codes written one after the other but is neither.
+func straddle(c0, c1 string, n uint64) string {
+	if len(c0) < 2 || len(c0) != len(c1) {
+		return c0
+	}
+	k := 1 + int(n%uint64(len(c0)-1))
+	return c0[k:] + c1[:k]
 }
 
 func (s restStep) ocraBody(code *string) ([]byte, ref.OCRACfg, bool) {
@@ -313,6 +327,9 @@ func runRestStep(sv *restServer, s restStep) (labels []string, nt bool, err erro
 			path = "/totp/validate"
 		}
 		code := mutate(ref.MustHOTP(s.Key, centre+uint64(int64(s.Dist)), d, a), s.Mut)
+		if s.Mut == 8 {
+			code = straddle(ref.MustHOTP(s.Key, centre+uint64(int64(s.Dist)), d, a), ref.MustHOTP(s.Key, centre+uint64(int64(s.Dist))+1, d, a), centre)
+		}
 		if s.SibDig != 0 && s.SibDig != d {
 			code = ref.MustHOTP(s.Key, centre+uint64(int64(s.Dist)), s.SibDig, a)
 			labels = append(labels, "sibling-digits")
@@ -701,7 +718,7 @@ func drawRestStep(t *rapid.T) restStep {
 			s.TS = 1 // timestamp 0 means "absent" to the service (the server's clock decides)
 		}
 		s.Dist = rapid.IntRange(-int(sk)-2, int(sk)+2).Draw(t, "dist")
-		s.Mut = rapid.SampledFrom([]int{0, 0, 0, 0, 1, 2, 3, 4, 5, 6, 7}).Draw(t, "mut")
+		s.Mut = rapid.SampledFrom([]int{0, 0, 0, 0, 1, 2, 3, 4, 5, 6, 7, 8, 9}).Draw(t, "mut")
 		if rapid.IntRange(0, 7).Draw(t, "sibDigQ") == 0 {
 			s.SibDig = rapid.SampledFrom([]int{6, 8, 9, 10, 7}).Draw(t, "sibDig")
 		}
@@ -734,7 +751,7 @@ func drawRestStep(t *rapid.T) restStep {
 		if s.Dist < 0 && c < uint64(-s.Dist) {
 			s.Dist = -s.Dist
 		}
-		s.Mut = rapid.SampledFrom([]int{0, 0, 0, 0, 1, 2, 3, 4, 5, 6, 7}).Draw(t, "mut")
+		s.Mut = rapid.SampledFrom([]int{0, 0, 0, 0, 1, 2, 3, 4, 5, 6, 7, 8, 9}).Draw(t, "mut")
 	case "ocra-gen", "ocra-val", "chain-ocra":
 		if rapid.Bool().Draw(t, "useRaw") {
 			s.RawName = rapid.SampledFrom(registeredNames).Draw(t, "rawName")
@@ -762,7 +779,7 @@ func drawRestStep(t *rapid.T) restStep {
 		if s.Ep != "chain-ocra" && rapid.IntRange(0, 5).Draw(t, "badIn") == 0 {
 			s.In.Q = append(s.In.Q, make([]byte, 129)...) // challenge too long (if selected)
 		}
-		s.Mut = rapid.SampledFrom([]int{0, 0, 0, 1, 2, 3, 4, 5, 6, 7}).Draw(t, "mut")
+		s.Mut = rapid.SampledFrom([]int{0, 0, 0, 1, 2, 3, 4, 5, 6, 7, 9}).Draw(t, "mut")
 	case "chain-ocra-both":
 		// a registered name plus a structured twin (same or different digits/hash); inputs admissible for both
 		s.RawName = rapid.SampledFrom(registeredNames).Draw(t, "rawName")
